@@ -32,13 +32,13 @@ func TestC20Conversions(t *testing.T) {
 	g := int64(glow.GenesisTime)
 	const maxSlot = int64(14316557)
 	check := func(u int64) {
-		if u-g > 1<<32-1 {
+		if u >= g && u-g > 1<<32-1 {
 			return // beyond genesis+2^32-1 seconds: outside the property's domain
 		}
 		got, err := glow.UnixToTimeslot(u)
 		if u < g {
 			if err == nil {
-				t.Fatalf("C20: UnixToTimeslot(G%+d) accepted a time before genesis", u-g)
+				t.Fatalf("C20: UnixToTimeslot(%d) accepted a time before genesis (returned %d)", u, got)
 			}
 			return
 		}
@@ -56,6 +56,15 @@ func TestC20Conversions(t *testing.T) {
 		check(g + 300*k)
 		check(g + 300*k + 299)
 		evals += 3
+	}
+	// times so far before genesis that "time - genesis" wraps in 64 bits
+	for _, u := range []int64{math.MinInt64, math.MinInt64 + 1, math.MinInt64 + g - 1, math.MinInt64 + g, math.MinInt64 + g + 1, -g, -1, 0, 1} {
+		check(u)
+		evals++
+	}
+	for k := int64(0); k < 200000; k++ {
+		check(math.MinInt64 + k*(g/100000))
+		evals++
 	}
 	ev.Exhaustive("c20:main:all slot boundaries k=0..14316557")
 	ev.Eval(evals)
